@@ -247,27 +247,31 @@ mut("c14_anchor_also_claims_tempo_lines", "C14", [
 ], "anchor recogniser also claims tempo lines: invisible in the shipped kind order, the outcome depends on the order in which kinds are tried")
 
 # ---------------------------------------------------------------------------------------- C15
-mut("c15_tempo_order_nonstrict", "C15", [
+mut("c15_duplicate_tick_only_detected_after_first", "C15", [
     ("chartparse/sync.py",
      '''            if data.tick <= prev_event.tick:''',
-     '''            if data.tick < prev_event.tick:'''),
-], "two tempo events on the same tick are accepted")
+     '''            if data.tick < prev_event.tick or (
+                data.tick == prev_event.tick and prev_event._proximal_bpm_event_index == 0
+            ):'''),
+], "two tempo events on the same tick at position k >= 2 are accepted (the unit test only covers the second event)")
 
-mut("c15_ts_tick0_check_dropped", "C15", [
+mut("c15_ts_tick0_check_only_for_single_signature", "C15", [
     ("chartparse/sync.py",
      '''        if self.time_signature_events[0].tick != 0:
             raise ValueError(''',
-     '''        if self.time_signature_events[0].tick < 0:
+     '''        if self.time_signature_events[0].tick != 0 and len(self.time_signature_events) == 1:
             raise ValueError('''),
-], "a chart whose first time signature is not at tick 0 is accepted")
+], "a chart with several signatures whose first one is not at tick 0 is accepted")
 
-mut("c15_zero_bpm_guard", "C15", [
-    ("chartparse/tick.py",
-     '''    if bpm <= 0:
-        raise ValueError(f"bpm {bpm} must be positive")''',
-     '''    if bpm < 0:
-        raise ValueError(f"bpm {bpm} must be positive")'''),
-], "a tempo of zero reaches the division: ZeroDivisionError instead of ValueError", also=("C18",))
+mut("c15_zero_tempo_fast_path_on_exact_tick", "C15", [
+    ("chartparse/sync.py",
+     '''        ticks_since_proximal_bpm_event = chartparse.tick.between(proximal_bpm_event.tick, tick)
+''',
+     '''        ticks_since_proximal_bpm_event = chartparse.tick.between(proximal_bpm_event.tick, tick)
+        if ticks_since_proximal_bpm_event == 0:
+            return proximal_bpm_event.timestamp, proximal_bpm_event_index
+'''),
+], "an event (or query) exactly on the tick of a zero tempo that is the last tempo event gets a time")
 
 mut("c15_negative_tick_start_check", "C15", [
     ("chartparse/sync.py",
